@@ -56,6 +56,8 @@ type Contracts struct {
 	Folds map[string]*Fold
 	// SpecFns: declared uninterpreted spec functions: name -> (argument sorts, result sort)
 	SpecFns map[string]*SpecFn
+	// SMT: raw SMT-LIB axioms defining spec functions (trusted definitions, printed in the evidence)
+	SMT []string
 }
 
 type SpecFn struct {
@@ -256,14 +258,21 @@ func ParseContracts(files map[string]string) (*Contracts, error) {
 				cs.Funcs[key] = cur
 				cs.Order = append(cs.Order, key)
 				curGuard = nil
+			case "smt":
+				cs.SMT = append(cs.SMT, rest)
+				cur, curGuard = nil, nil
 			case "specfn":
 				// specfn fmtuint(Int, Int) Str
-				lp, rp := strings.Index(rest, "("), strings.Index(rest, ")")
+				lp := strings.Index(rest, "(")
+				rp := -1
+				if lp >= 0 {
+					rp = matching(rest, lp)
+				}
 				if lp < 0 || rp < lp {
 					return nil, fail(fmt.Errorf("bad specfn"))
 				}
 				sf := &SpecFn{Res: strings.TrimSpace(rest[rp+1:])}
-				for _, a := range strings.Split(rest[lp+1:rp], ",") {
+				for _, a := range splitTop(rest[lp+1:rp], ',') {
 					if a = strings.TrimSpace(a); a != "" {
 						sf.Args = append(sf.Args, a)
 					}
